@@ -474,6 +474,8 @@ harness("c14_roundtrip_latter_map", {"acc0": "mat(ipow(4, k), 4)", "v": "nat", "
 def c14_roundtrip_latter_map(acc0, k, v, j):
     lm = accessor_to_latter_map(acc0)
     back = latter_map_to_accessor(lm, k)
+    cut(forall(lambda u: forall(lambda c: back[u][c] == acc0[u][c], 0, 4), 0, ipow(4, k), lambda u: back[u]), 0 <= v, v < ipow(4, k), 0 <= j, j < 4)
+    assert back[v][0] == acc0[v][0] and back[v][1] == acc0[v][1] and back[v][2] == acc0[v][2] and back[v][3] == acc0[v][3], "row by row"
     assert back[v][j] == acc0[v][j], "accessor -> latter map -> accessor is the identity"
 ''', requires={"graph": "k >= 1 and is_accessor(acc0, k)", "entry": "v < ipow(4, k) and j < 4"}, ghost_params={"k": "nat"})
 
@@ -499,6 +501,7 @@ def %s(bits, accessor, start_index, shuffles, k, R, rank, mind):
         t = 0
         while t < n - 1:
             mark(code(s[t]))
+            assert dg[t] >= 1 and dg[t] <= 4 and dg[t] * encode_gq[t + 1] <= encode_gq[t] and encode_gq[t + 1] >= 0, "the quotient chain divides by the out-degree"
             mul_step(wt(dg, 0, t), dg[t], wt(dg, 0, t + 1), encode_gq[t + 1], encode_gq[t])
             mul_mono(wt(dg, 0, t), mind, dg[t])
             t += 1
@@ -562,6 +565,7 @@ def %s(bits, accessor, start_index, shuffles, k, R, rank, nv):
             mark(encode_vtx[t + 1])
             assert dg[t] == deg(accessor, encode_vtx[t]) and (dg[t] >= 2 or rank[encode_vtx[t + 1]] < rank[encode_vtx[t]]), "one-arc steps lower the rank"
             assert R[encode_vtx[t + 1]] != 0 and 0 <= rank[encode_vtx[t + 1]] and rank[encode_vtx[t + 1]] < nv, "next vertex is reachable"
+            assert dg[t] >= 1 and dg[t] <= 4 and dg[t] * encode_gq[t + 1] <= encode_gq[t] and encode_gq[t + 1] >= 0, "the quotient chain divides by the out-degree"
             mul_step(wt(dg, 0, t), dg[t], wt(dg, 0, t + 1), encode_gq[t + 1], encode_gq[t])
             if dg[t] >= 2:
                 mul_mono(wt(dg, 0, t), 2, dg[t])
@@ -576,6 +580,7 @@ def %s(bits, accessor, start_index, shuffles, k, R, rank, nv):
             ipow_mono(2, len(bits), c)
         assert c + 1 <= len(bits), "fewer branching steps than message bits"
         mul_mono(nv, c + 1, len(bits))
+        assert n <= B + nv and B + nv == nv * (c + 1), "steps so far against branching steps"
         assert n <= len(bits) * nv, "encoding ends within (message length) x (vertex count) steps"
 """ % (name, sh)
     req = dict(WFH)
